@@ -18,6 +18,7 @@ EXPLANATION = (
     'Also decided (round 8): No helper of the serializers module reached from the serialisation entry points writes into the state it is handed. '
     'Also decided (round 10): The default method-call error handler stores none of its arguments (an exception keeps the called object alive through its traceback: a weak registration would never end); the URI parser takes the object part verbatim (shared from C19). '
     'Also decided (round 9): A forced registration replaces the entry with one store (register removes nothing first). '
+    "Also decided (round 11): The finalizer of a weak registration removes the entry only while it is still that object's reference; uriFor returns only a uri whose object part is the id it was asked for. "
     "Not decided: identity of the object reached through a proxy, GC timing."
 )
 
